@@ -1,10 +1,11 @@
 #!/bin/bash
 # tools/confirm_seed.sh <PROP> <k> [patchfile]  -- confirm a seeded change in a scratch worktree of /repo HEAD and
 # run the property's quick check against that worktree.  Writes seeded/<PROP>-<k>/{patch.diff,demo.py,meta.json}.
-PROP=$1; K=$2; IN=/verif/seeded/_incoming/$PROP
+PROP=$1; K=$2; IN=/verif/seeded/_incoming${SEED_ROUND:+$SEED_ROUND}/$PROP
+OK=$K; [ -n "$SEED_ROUND" ] && OK=$((K + 2*(SEED_ROUND-1)))
 PATCH=${3:-$IN/patch$K.diff}
-WT=/tmp/seedwt-$PROP-$K
-OUT=/verif/seeded/$PROP-$K
+WT=/tmp/seedwt-$PROP-$K-r${SEED_ROUND:-1}
+OUT=/verif/seeded/$PROP-$OK
 rm -rf $WT; git -C /repo worktree prune; git -C /repo worktree add --detach $WT HEAD >/dev/null 2>&1 || { echo "worktree failed"; exit 9; }
 cd $WT
 run_demo() { PYTHONPATH=$WT/src timeout 600 /venv/bin/python $IN/demo$K.py >/tmp/seed-demo-$PROP-$K.log 2>&1; echo $?; }
@@ -34,6 +35,6 @@ meta = {"property": prop, "breaks": m.get("summary", ""), "needs": m.get("needs"
         "my_check": {"command": f"VERIF_REPO=<worktree> ./check {prop} --tier quick", "exit_code": int(rc), "violations": int(viols),
                      "first_replays": first.strip()}}
 json.dump(meta, open(dst, "w"), indent=1)
-print(f"{prop}-{k}: demo clean={dc} patched={dp} | tests: {tests} | check rc={rc} violations={viols} {first}")
+print(f"{prop}-{k} (round {__import__('os').environ.get('SEED_ROUND','1')}): demo clean={dc} patched={dp} | tests: {tests} | check rc={rc} violations={viols} {first}")
 PY
 cd /; git -C /repo worktree remove --force $WT; rm -rf /tmp/seed-ev-$PROP-$K
